@@ -62,6 +62,8 @@ pub struct Stats {
     pub relaxed: u64,
     pub skipped_unrepresentable: u64,
     pub independence_checked: u64,
+    /// operations whose value is not modelled but which must be (and were checked to be) clock-free
+    pub clock_free_only: u64,
     pub crosschecked: u64,
     pub sim_ns: u128,
     pub fault_configured: [u64; 8],
@@ -96,7 +98,7 @@ impl Stats {
         serde_json::json!({
             "runs": self.runs, "ops": self.ops, "lib_calls": self.lib_calls, "unmodelled": self.unmodelled,
             "relaxed": self.relaxed, "skipped_unrepresentable": self.skipped_unrepresentable,
-            "independence_checked": self.independence_checked, "crosschecked": self.crosschecked,
+            "independence_checked": self.independence_checked, "clock_free_only": self.clock_free_only, "crosschecked": self.crosschecked,
             "sim_ns": self.sim_ns.to_string(),
             "fault_configured": self.fault_configured.to_vec(), "fault_fired": self.fault_fired.to_vec(),
             "probes": self.probes.to_vec(), "readings_hist": self.readings_hist.to_vec(),
@@ -130,6 +132,7 @@ impl Stats {
             relaxed: u("relaxed"),
             skipped_unrepresentable: u("skipped_unrepresentable"),
             independence_checked: u("independence_checked"),
+            clock_free_only: u("clock_free_only"),
             crosschecked: u("crosschecked"),
             sim_ns: v["sim_ns"].as_str().and_then(|x| x.parse().ok()).unwrap_or(0),
             outcome_ok: u("outcome_ok"),
@@ -189,6 +192,7 @@ impl Merge for Stats {
         self.relaxed += o.relaxed;
         self.skipped_unrepresentable += o.skipped_unrepresentable;
         self.independence_checked += o.independence_checked;
+        self.clock_free_only += o.clock_free_only;
         self.crosschecked += o.crosschecked;
         self.sim_ns += o.sim_ns;
         for i in 0..8 {
@@ -401,6 +405,8 @@ fn shape_id(kind: &OpKind) -> u64 {
                     Sem::Month { .. } => 20,
                     Sem::MonthName { .. } => 21,
                     Sem::MonthNumAsName { .. } => 22,
+                    Sem::MonthNameGivenNumber { .. } => 23,
+                    Sem::Trailing => 50,
                     Sem::Day { .. } => 30,
                     Sem::Doy { .. } => 31,
                     Sem::WdName { .. } => 32,
@@ -450,7 +456,7 @@ fn probes(kind: &OpKind, r: &Reading, out: Outcome, stats: &mut Stats) {
             Sem::Year { k, n } if !t.txt.trim().is_empty() => Some((k, n)),
             _ => None,
         });
-        let has_month = present(&|s| matches!(s, Sem::Month { .. } | Sem::MonthName { .. } | Sem::MonthNumAsName { .. }));
+        let has_month = present(&|s| matches!(s, Sem::Month { .. } | Sem::MonthName { .. } | Sem::MonthNumAsName { .. } | Sem::MonthNameGivenNumber { .. }));
         let day = toks.iter().find_map(|t| match t.sem {
             Sem::Day { n } if !t.txt.trim().is_empty() => Some(n),
             _ => None,
@@ -608,7 +614,11 @@ pub fn exec_op(
         stats.unmodelled += 1;
         return None;
     }
-    let clock_dependent = e_inv != e_alt;
+    let clock_free_only = e_inv == Exp::ClockFree || e_alt == Exp::ClockFree;
+    if clock_free_only {
+        stats.clock_free_only += 1;
+    }
+    let clock_dependent = e_inv != e_alt && !clock_free_only;
 
     // (1) linearisable clock use
     let ok = if readings.is_empty() {
@@ -666,7 +676,7 @@ pub fn exec_op(
 
     // (2) independence: a text with full year, month and day must not depend on the clock at all
     if let OpKind::Parse { toks, .. } = &op.kind {
-        if !opts.lean && model::is_complete_date(toks) {
+        if !opts.lean && (model::is_complete_date(toks) || clock_free_only) {
             stats.independence_checked += 1;
             for adv in adversarial_clocks(&r_inv) {
                 let desc = format!("{:?}", adv.peek());
